@@ -15,6 +15,7 @@ from typing import (
     Callable,
     Dict,
     Iterable,
+    Iterator,
     List,
     MutableSequence,
     NamedTuple,
@@ -135,6 +136,36 @@ def extract_inline(
         return cast(MutableSequence[n.InlineNode], util.fast_deep_copy(node.children))
 
     return None
+
+
+def iterate_nodes(node: n.Node) -> Iterator[n.Node]:
+    """Yield a node and all of its descendants in the order the EventParser visits them."""
+    yield node
+    if isinstance(node, n.Parent):
+        if isinstance(node, n.DefinitionListItem):
+            for term_part in node.term:
+                yield from iterate_nodes(term_part)
+        if isinstance(node, n.Directive):
+            for arg in node.argument:
+                yield from iterate_nodes(arg)
+        for child in node.children:
+            yield from iterate_nodes(child)
+
+
+def assign_unique_id(base: str, reserved: Set[str], issued: Set[str]) -> str:
+    """Return an ID derived from base that has not yet been issued on the current page, and
+    record it as issued. The first element asking for an ID keeps it; later ones receive the
+    first free "-N" suffix that collides neither with an ID already issued nor with the natural
+    ID of any other element on the page (reserved)."""
+    result = base
+    if result in issued:
+        counter = 1
+        result = f"{base}-{counter}"
+        while result in issued or result in reserved:
+            counter += 1
+            result = f"{base}-{counter}"
+    issued.add(result)
+    return result
 
 
 class Context:
@@ -711,32 +742,40 @@ class TabsSelectorHandler(Handler):
 class TargetHandler(Handler):
     def __init__(self, context: Context) -> None:
         super().__init__(context)
-        self.target_counter: typing.Counter[str] = collections.Counter()
+        self.reserved_ids: Set[str] = set()
+        self.issued_ids: Set[str] = set()
         self.targets = context[TargetDatabase]
+
+    @staticmethod
+    def choose_html_id(node: n.Target) -> Optional[str]:
+        # Frankly, this is silly. We just pick the longest identifier. This is arbitrary,
+        # and we can consider this behavior implementation-defined to be changed later if needed.
+        # It just needs to be something consistent.
+        candidates = [
+            max(identifier.ids, key=len)
+            for identifier in node.get_child_of_type(n.TargetIdentifier)
+            if identifier.ids
+        ]
+
+        if not candidates:
+            return None
+
+        chosen_id = max(candidates, key=len)
+        return f"{node.domain}-{node.name}-{util.make_html5_id(chosen_id)}"
 
     def enter_node(self, fileid_stack: FileIdStack, node: n.Node) -> None:
         if not isinstance(node, n.Target):
             return
 
-        # Frankly, this is silly. We just pick the longest identifier. This is arbitrary,
-        # and we can consider this behavior implementation-defined to be changed later if needed.
-        # It just needs to be something consistent.
         identifiers = list(node.get_child_of_type(n.TargetIdentifier))
-        candidates = [
-            max(identifier.ids, key=len) for identifier in identifiers if identifier.ids
-        ]
-
-        if not candidates:
+        chosen_html_id = self.choose_html_id(node)
+        if chosen_html_id is None:
             return
 
-        chosen_id = max(candidates, key=len)
-        chosen_html_id = f"{node.domain}-{node.name}-{util.make_html5_id(chosen_id)}"
-
         # Disambiguate duplicate IDs, should they occur.
-        counter = self.target_counter[chosen_html_id]
-        if counter > 0:
-            chosen_html_id += f"-{counter}"
-        self.target_counter[chosen_html_id] += 1
+        chosen_html_id = assign_unique_id(
+            chosen_html_id, self.reserved_ids, self.issued_ids
+        )
         node.html_id = chosen_html_id
 
         for target_node in identifiers:
@@ -756,7 +795,16 @@ class TargetHandler(Handler):
             )
 
     def enter_page(self, fileid_stack: FileIdStack, page: Page) -> None:
-        self.target_counter.clear()
+        self.issued_ids.clear()
+        self.reserved_ids = set(
+            html_id
+            for html_id in (
+                self.choose_html_id(node)
+                for node in iterate_nodes(page.ast)
+                if isinstance(node, n.Target)
+            )
+            if html_id is not None
+        )
 
 
 class HeadingHandler(Handler):
@@ -765,12 +813,26 @@ class HeadingHandler(Handler):
 
     def __init__(self, context: Context) -> None:
         super().__init__(context)
-        self.heading_counter: typing.Counter[str] = collections.Counter()
+        self.reserved_ids: Set[str] = set()
+        self.issued_ids: Set[str] = set()
         self.targets = context[TargetDatabase]
         self.slug_title_mapping: Dict[str, Sequence[n.InlineNode]] = {}
 
-    def exit_page(self, fileid_stack: FileIdStack, page: Page) -> None:
-        self.heading_counter.clear()
+    @staticmethod
+    def get_base_id(node: n.Node) -> Optional[str]:
+        if isinstance(node, n.Heading):
+            return node.id
+        if isinstance(node, n.Directive) and node.name == "collapsible":
+            return node.options.get("id", "")
+        return None
+
+    def enter_page(self, fileid_stack: FileIdStack, page: Page) -> None:
+        self.issued_ids.clear()
+        self.reserved_ids = set(
+            base_id
+            for base_id in (self.get_base_id(node) for node in iterate_nodes(page.ast))
+            if base_id is not None
+        )
 
     def get_title(self, slug: str) -> Optional[Sequence[n.InlineNode]]:
         return self.slug_title_mapping.get(slug)
@@ -785,16 +847,16 @@ class HeadingHandler(Handler):
         ):
             return
 
-        id = node.id if isinstance(node, n.Heading) else node.options.get("id", "")
+        id = self.get_base_id(node)
+        assert id is not None
 
         # ensure uniqueness within headings
-        counter = self.heading_counter[id]
-        self.heading_counter[id] += 1
-        if counter > 0:
+        unique_id = assign_unique_id(id, self.reserved_ids, self.issued_ids)
+        if unique_id != id:
             if isinstance(node, n.Heading):
-                node.id += f"-{counter}"
+                node.id = unique_id
             if isinstance(node, n.Directive):
-                node.options["id"] += f"-{counter}"
+                node.options["id"] = unique_id
 
         if not isinstance(node, n.Heading):
             return
